@@ -353,7 +353,8 @@ pub fn add_sections(rep: &mut Report, prop: &str, thorough: bool, conformant_onl
         let serials = [None, Some(vec![1u8]), Some(vec![])];
         let iscas = [IsCaSpec::NoCa, IsCaSpec::ExplicitNoCa, IsCaSpec::Unconstrained, IsCaSpec::Constrained(0)];
         let ncs = [None, Some(NcSpec::default()), Some(nc_values()[1].1.clone())];
-        let dps: [Vec<Vec<String>>; 2] = [vec![], vec![vec!["http://x.example/c".to_string()]]];
+        // (a distribution point without any URI is still a distribution point the caller asked for)
+        let dps: [Vec<Vec<String>>; 4] = [vec![], vec![vec!["http://x.example/c".to_string()]], vec![vec![]], vec![vec![], vec![]]];
         let mut cases: Vec<CsrCase> = Vec::new();
         for base in 0..8u8 {
             for s in &serials {
@@ -383,7 +384,7 @@ pub fn add_sections(rep: &mut Report, prop: &str, thorough: bool, conformant_onl
                 }
             }
         }
-        let sec = Section::new("csr/sweep/refusal", "every combination of values of the five fields a CSR cannot express (serial 3 x is_ca 4 x name constraints 3 x CRL DPs 2 x AKI flag 2) x 8 base shapes: refused iff any is set");
+        let sec = Section::new("csr/sweep/refusal", "every combination of values of the five fields a CSR cannot express (serial 3 x is_ca 4 x name constraints 3 x CRL DPs 4 (none, one with a URI, one and two without any URI) x AKI flag 2) x 8 base shapes: refused iff any is set");
         run::sweep_cases(&sec, &cases, &|c| format!("serial={:?} is_ca={:?} nc={} dps={} aki={} sans={} ku={}", c.st.serial, c.st.is_ca, c.st.nc.is_some(), c.st.crl_dps.len(), c.st.use_aki, c.st.sans.len(), c.st.key_usages.len()), &|c| judge(prop, &known, c, &key, &key_pub));
         rep.add(sec);
     }
